@@ -25,12 +25,14 @@ use std::panic::{catch_unwind, AssertUnwindSafe};
 use std::str::FromStr;
 use xor_name::XorName;
 
-fn unhex(s: &str) -> Vec<u8> {
+mod driver;
+
+pub(crate) fn unhex(s: &str) -> Vec<u8> {
     (0..s.len() / 2).map(|i| u8::from_str_radix(&s[2 * i..2 * i + 2], 16).unwrap()).collect()
 }
 
 /// record types travel as integers: 0 Chunk, 1 Scratchpad, n>=2 NonChunk([n as u8; 32])
-fn rtype(v: &Value) -> RecordType {
+pub(crate) fn rtype(v: &Value) -> RecordType {
     match v.as_u64().unwrap() {
         0 => RecordType::Chunk,
         1 => RecordType::Scratchpad,
@@ -38,7 +40,7 @@ fn rtype(v: &Value) -> RecordType {
     }
 }
 
-fn rtype_code(t: &RecordType) -> u64 {
+pub(crate) fn rtype_code(t: &RecordType) -> u64 {
     match t {
         RecordType::Chunk => 0,
         RecordType::Scratchpad => 1,
@@ -72,7 +74,7 @@ impl World {
     }
 }
 
-fn round_to(v: i128, gran: i128) -> i128 {
+pub(crate) fn round_to(v: i128, gran: i128) -> i128 {
     // nearest multiple of gran (ties upwards); works for negatives
     (v + gran / 2).div_euclid(gran) * gran
 }
@@ -86,7 +88,14 @@ async fn run_history(case: &Value) -> Value {
         chunk_addr: case.get("addr").and_then(|a| a.as_str()) == Some("chunk"),
     };
     let gran = case.get("gran").and_then(|g| g.as_i64()).unwrap_or(1000) as i128;
-    let (tx, mut rx) = tokio::sync::mpsc::channel::<NetworkEvent>(4096);
+    // the NetworkEvent channel the harness owns: capacity and initial occupancy are part of the case
+    let chan = case.get("chan").and_then(|c| c.as_u64()).unwrap_or(4096) as usize;
+    let (tx, mut rx) = tokio::sync::mpsc::channel::<NetworkEvent>(chan);
+    let prefill = case.get("prefill").and_then(|c| c.as_u64()).unwrap_or(0);
+    for _ in 0..prefill {
+        // the upper layer is busy: filler events occupy the channel
+        let _ = tx.try_send(NetworkEvent::KeysToFetchForReplication(vec![]));
+    }
     let mut f = Fetcher::new(self_id, tx);
     let mut vclock: i128 = 0;
 
@@ -179,19 +188,16 @@ async fn run_history(case: &Value) -> Value {
             }
             other => panic!("unknown op {other}"),
         };
-        // let the spawned event-sending tasks run, then drain the channel we own
-        for _ in 0..4 {
-            tokio::task::yield_now().await;
-        }
-        let mut events = Vec::new();
-        while let Ok(ev) = rx.try_recv() {
-            match ev {
-                NetworkEvent::FailedToFetchHolders(set) => {
-                    events.push(Value::Array(set.iter().map(|p| json!(w.peer_idx(p))).collect()))
-                }
-                other => events.push(json!(format!("{other:?}"))),
+        // let the spawned event-sending tasks run, then (unless the step says the consumer is busy) drain
+        // the channel we own; a sender waiting for capacity needs a poll after every receive
+        let events = if prim.get("nodrain").and_then(|b| b.as_bool()).unwrap_or(false) {
+            for _ in 0..4 {
+                tokio::task::yield_now().await;
             }
-        }
+            Vec::new()
+        } else {
+            drain_events(&mut rx, &w).await
+        };
         let (tbf, ong) = f.dump();
         let mut tbf: Vec<(i64, u64, i64, i128)> = tbf.iter()
             .map(|(k, t, h, r)| (w.key_idx(k), rtype_code(t), w.peer_idx(h), round_to(r + vclock, gran))).collect();
@@ -210,12 +216,34 @@ async fn run_history(case: &Value) -> Value {
             "now": vclock.to_string(),
         }));
     }
-    json!({"dist": dist, "consts": [maxp, fetch_ms.to_string(), pending_ms.to_string()], "steps": steps})
+    // the consumer finally catches up: whatever was still on its way is delivered now
+    let late = drain_events(&mut rx, &w).await;
+    json!({"dist": dist, "consts": [maxp, fetch_ms.to_string(), pending_ms.to_string()], "steps": steps, "late": late})
+}
+
+/// Receive until nothing more arrives (senders blocked on a full channel are polled between receives).
+/// Filler events are dropped; FailedToFetchHolders become lists of holder indices.
+async fn drain_events(rx: &mut tokio::sync::mpsc::Receiver<NetworkEvent>, w: &World) -> Vec<Value> {
+    let mut events = Vec::new();
+    loop {
+        for _ in 0..4 {
+            tokio::task::yield_now().await;
+        }
+        match rx.try_recv() {
+            Ok(NetworkEvent::FailedToFetchHolders(set)) => {
+                events.push(Value::Array(set.iter().map(|p| json!(w.peer_idx(p))).collect()))
+            }
+            Ok(NetworkEvent::KeysToFetchForReplication(v)) if v.is_empty() => {}
+            Ok(other) => events.push(json!(format!("{other:?}"))),
+            Err(_) => break,
+        }
+    }
+    events
 }
 
 fn main() {
     std::panic::set_hook(Box::new(|_| {}));
-    let rt = tokio::runtime::Builder::new_current_thread().build().unwrap();
+    let rt = tokio::runtime::Builder::new_current_thread().enable_all().build().unwrap();
     let stdin = std::io::stdin();
     let out = std::io::stdout();
     let mut out = out.lock();
@@ -225,7 +253,11 @@ fn main() {
             continue;
         }
         let case: Value = serde_json::from_str(&line).unwrap();
-        let res = catch_unwind(AssertUnwindSafe(|| rt.block_on(run_history(&case)))).unwrap_or_else(|p| {
+        let res = catch_unwind(AssertUnwindSafe(|| match case.get("mode").and_then(|m| m.as_str()) {
+            Some("peerinfo") => driver::peerinfo(&case),
+            Some("driver") => rt.block_on(driver::run_driver_history(&case)),
+            _ => rt.block_on(run_history(&case)),
+        })).unwrap_or_else(|p| {
             let msg = p.downcast_ref::<String>().cloned()
                 .or_else(|| p.downcast_ref::<&str>().map(|s| s.to_string()))
                 .unwrap_or_default();
